@@ -1,14 +1,25 @@
 #!/bin/bash
-# tools/mutant.sh <patch.diff> <check-id>...   applies a property-breaking patch to /repo, confirms the
-# repository's own tests still pass, runs the given checks (quick) and reverts. Prints one line per check.
+# tools/mutant.sh <patch.diff> <check-id>...   applies a property-breaking patch, confirms the repository's own
+# tests still pass, runs the given checks (quick) and reverts. Prints one line per check.
+# Default: the patch is applied to /repo itself (git apply … run … git checkout -- .).
+# MUT_WT=1: the patch is applied to a scratch worktree of /repo under /tmp and the checks are pointed at it with
+# KV_REPO, so that /repo stays untouched (needed while something else, e.g. a thorough run, builds from /repo).
 set -u
 patch=$(readlink -f "$1"); shift
-cd /repo
-if ! git diff --quiet; then echo "REFUSING: /repo has uncommitted changes"; exit 3; fi
+export GOFLAGS=-mod=mod GOPROXY=off GOSUMDB=off GOTOOLCHAIN=local
+if [ "${MUT_WT:-}" != "" ]; then
+  tree=/tmp/mut-wt-$$
+  git -C /repo worktree add -q --detach "$tree" HEAD || exit 3
+  trap 'git -C /repo worktree remove --force "$tree" 2>/dev/null; git -C /repo worktree prune' EXIT
+  export KV_REPO=$tree
+else
+  tree=/repo
+  if ! git -C /repo diff --quiet; then echo "REFUSING: /repo has uncommitted changes"; exit 3; fi
+  trap 'cd /repo && git checkout -- . && git clean -fdq klog' EXIT
+fi
+cd "$tree"
 if ! git apply --check "$patch" 2>/dev/null; then echo "PATCH-DOES-NOT-APPLY $patch"; exit 3; fi
 git apply "$patch"
-trap 'cd /repo && git checkout -- . && git clean -fdq klog' EXIT
-export GOFLAGS=-mod=mod GOPROXY=off GOSUMDB=off GOTOOLCHAIN=local
 if [ "${SKIP_TESTS:-}" = "" ]; then
   if ! go1.26 build ./... >/dev/null 2>&1; then echo "MUTANT-DOES-NOT-COMPILE"; exit 3; fi
   t=$(go1.26 test -count=1 ./... 2>&1 | grep -c "^FAIL\|^--- FAIL")
